@@ -19,10 +19,11 @@ from __future__ import annotations
 import core
 import renderlib as R
 from props import c01_ident as I
+from props import c01_quirk as Q
 from props import c01_sessions as S
 
 LEVEL = "proof"
-EXTRA_TARGETS = ["model/RenderTie.vo", "model/RenderSessionTie.vo", "model/TermIdentTie.vo"]
+EXTRA_TARGETS = ["model/RenderTie.vo", "model/RenderSessionTie.vo", "model/TermIdentTie.vo", "model/KittyQuirkTie.vo"]
 
 TERMS = {"iterm2": ["konsole", "wezterm", "iterm2", ""], "kitty": [""], "block": [""]}
 
@@ -130,13 +131,15 @@ def nontrivial(c):
 
 def run(ctx):
     rng = ctx.rng
-    sessions, idents = [], []
+    sessions, idents, quirks = [], [], []
     if ctx.replay:
         cases = [ctx.replay["replay"]["case"]]
         if "session" in cases[0]:
             cases, sessions = [], cases
         elif "ident" in cases[0]:
             cases, idents = [], cases
+        elif "quirk" in cases[0]:
+            cases, quirks = [], cases
     else:
         n = 260 if ctx.quick else 5000
         cases = corpus() + [gen_case(rng) for _ in range(n)]
@@ -149,10 +152,15 @@ def run(ctx):
         # terminal-identity cases: their own stream as well
         irng = __import__("random").Random(rng.getrandbits(64))
         idents = I.corpus() + [I.gen_case(irng) for _ in range(120 if ctx.quick else 2500)]
+        # quirk cases (round 9): coverage as the terminal the render is made for shows it; own stream
+        qrng = __import__("random").Random(rng.getrandbits(64))
+        nq = 50 if ctx.quick else 1500
+        quirks = Q.corpus() + [Q.gen_bg_case(qrng) for _ in range(nq)] + [Q.gen_tx_case(qrng) for _ in range(nq)]
     # the identity cases are judged concurrently with the rest (own driver processes, own Coq shards)
     from concurrent.futures import ThreadPoolExecutor
-    ipool = ThreadPoolExecutor(max_workers=1)
+    ipool = ThreadPoolExecutor(max_workers=2)
     ifuture = ipool.submit(I.judge, idents, "c01i") if idents else None
+    qfuture = ipool.submit(Q.judge, quirks, "c01q") if quirks else None
     codes, lexerr, impl, errors = R.evaluate(cases, "c01") if cases else ([], [], [], [])
     mismatches, failures = [], []
     hist = {"style": {}, "method": {}, "term": {}, "cells": {}, "alpha": {}}
@@ -231,7 +239,6 @@ def run(ctx):
              "kitty_frames": 0}
     if idents:
         iverdicts, iimpl, ierrors = ifuture.result()
-        ipool.shutdown()
         errors = errors + ierrors
         for c, v, r in zip(idents, iverdicts, iimpl):
             ihist["style"][c["style"]] = ihist["style"].get(c["style"], 0) + 1
@@ -266,12 +273,70 @@ def run(ctx):
             elif v["code"] & 1:
                 mismatches.append({"case": c, "code": v["code"], "result": {k: r[k] for k in r if k not in ("out", "toks")},
                                    "explain": I.explain(c, r, "c01i") if len(mismatches) < 3 else ""})
+    # ---- quirks of the terminal the render is made for: default-background quirk (block), acceptance of each
+    # transmission on its own control data (kitty)
+    qhist = {"cases": len(quirks), "bg": {"kitty": 0, "kitty_bg_known": 0, "lower_is_default_bg_opaque": 0,
+                                          "halfblock_lower_is_default_bg": 0, "alpha_mode": 0},
+             "tx": {"lines": 0, "whole": 0, "rgba_render": 0, "compressed": 0, "opaque_line_then_transparency": 0,
+                    "transparency_then_opaque_line": 0, "transmissions": 0}}
+    if quirks:
+        qverdicts, qimpl, qerrors = qfuture.result()
+        errors = errors + qerrors
+        for c, v, r in zip(quirks, qverdicts, qimpl):
+            if c["quirk"] == "bg":
+                hb = qhist["bg"]
+                known = bool(c["on_kitty"] and c.get("term_bg"))
+                hb["kitty"] += bool(c["on_kitty"])
+                hb["kitty_bg_known"] += known
+                hb["alpha_mode"] += bool(r.get("alpha_mode"))
+                rows = R.block_rows(r) if "rgb" in r else []
+                hit = [p for row in rows for p in row if list(p[1]) == c["default_bg"] and not (r.get("alpha_mode") and 0 in p[2:])]
+                hb["lower_is_default_bg_opaque"] += bool(hit)
+                half = bool([p for p in hit if p[0] != p[1]])
+                hb["halfblock_lower_is_default_bg"] += half
+                if known and half:
+                    distinct.add(core.sig(["quirk", c]))
+            else:
+                ht = qhist["tx"]
+                lines = c["args"].get("method", "lines") == "lines"
+                ht["lines" if lines else "whole"] += 1
+                ht["rgba_render"] += r.get("render_image", {}).get("mode") == "RGBA"
+                ht["compressed"] += bool(c["args"].get("compress"))
+                ht["transmissions"] += len(r.get("txs", []))
+                lo = r.get("line_opaque", [])
+                rgba = r.get("render_image", {}).get("mode") == "RGBA"
+                ot = rgba and any(a and not b for i, a in enumerate(lo) for b in lo[i + 1:])
+                to = rgba and any(b and not a for i, a in enumerate(lo) for b in lo[i + 1:])
+                ht["opaque_line_then_transparency"] += bool(ot)
+                ht["transparency_then_opaque_line"] += bool(to)
+                if ot or to:
+                    distinct.add(core.sig(["quirk", c]))
+            if Q.failing(v):
+                if sum(1 for f in failures if f.get("kind") == "quirk") < 2:
+                    c2, v2, r2 = Q.shrink(c, v, r, "c01q")
+                    why = v2["lexerr"] or (
+                        ("a cell of the rectangle is NOT COVERED ON THE TERMINAL THE RENDER IS MADE FOR: kitty does not paint a "
+                         "background colour equal to its default background " if c2["quirk"] == "bg" else
+                         "the render AS A KITTY TERMINAL DISPLAYS IT (a transmission whose decoded payload is not s*v*f/8 bytes "
+                         "for its own control data is rejected and places nothing) does not cover the rectangle with image ")
+                        + "(contract clauses on that view, [covered under the quirk] / accepted per transmission, first model "
+                        + "difference: " + Q.explain(r2, "c01q") + ")")
+                else:
+                    c2, v2, r2, why = c, v, r, v["lexerr"] or "render not covered on the terminal it is made for"
+                failures.append({"kind": "quirk", "signature": core.sig(["quirk", c2]),
+                                 "what": f"{why} — {Q.describe(c2, r2)}",
+                                 "replay": {"case": c2, "output": r2.get("out", "")[:3000]}})
+            elif v["code"] & 1:
+                mismatches.append({"case": c, "code": v["code"], "explain": Q.explain(r, "c01q") if len(mismatches) < 3 else "",
+                                   "what": Q.describe(c, r)})
+    ipool.shutdown()
     for f in failures:
         f.pop("kind", None)
     hist["identity"] = ihist
+    hist["quirks"] = qhist
     return {
         "corr_name": "Block.render / GfxRender.{kitty,iterm2}_{lines,whole} (token models) == lexed real renders",
-        "evaluations": len(cases) + shist["completed"] + ihist["built"] + ihist["StyleError"],
+        "evaluations": len(cases) + shist["completed"] + ihist["built"] + ihist["StyleError"] + len(quirks),
         "distinct_nontrivial": len(distinct),
         "rule": "corpus (3 styles x 4 sizes x methods x terminal identities x mix) + random cases: image mode/size/content, "
                 "cells 1..12 x 1..8 (boundary-seeded w=1, h=1), cell sizes 1..20 x 1..40, method (case variants), mix, "
@@ -292,7 +357,19 @@ def run(ctx):
                 "(name, version incl. boundary / unknown / unparsable versions; kitty: reply to the graphics query ok / error / DA1 "
                 "only / none), a route of 0..4 operations (is_supported() / forced_support = b / _supported = None on GraphicsImage, "
                 "the style class, a subclass, a sub-subclass), the class instantiated, method, mix, alpha, size, source; the quirk "
-                "mode is never assigned, the library detects it. Non-trivial: built after a non-empty route.",
+                "mode is never assigned, the library detects it. Non-trivial: built after a non-empty route.  QUIRKS (round 9): (a) block renders of 1..4 x "
+                "1..3 cell images whose pixels are drawn per upper / lower position from {the default background colour, one step "
+                "away on one channel, another colour} x {opaque, transparent, translucent}, default backgrounds incl. channel "
+                "values 0 / 255 (direction of the nudge), on kitty / not, default background known / unknown, alpha None / "
+                "threshold / '#' / hex (incl. the default background itself), split cells; corpus: one cell with lower / upper / "
+                "both pixels exactly / nearly the default background; judged by quirk_cover_checkb (coverage where a background "
+                "equal to kitty's default background paints nothing). Non-trivial: kitty, background known, a half-block cell "
+                "whose opaque lower pixel is the default background.  (b) kitty renders of RGBA / RGB images built line by line "
+                "(each line opaque / some transparency / fully transparent; opaque lines followed by lines with transparency "
+                "and vice versa), LINES / WHOLE, compress 0 / 4 / 9, mix, blend, z-index, alpha threshold / None / '#'; every "
+                "transmission is decoded (base64, zlib) and judged on ITS OWN control data; the render is judged as displayed "
+                "(gfx_shown_checkb: contract + image coverage on the accepted view). Non-trivial: an RGBA render with an "
+                "opaque line before / after a line with transparency.",
         "samples": [R.describe(c) for c in cases[:1] + cases[-3:]] + [S.describe(c) for c in sessions[-2:]]
                    + [I.describe(c) for c in idents[-2:]],
         "histogram": hist,
@@ -310,6 +387,11 @@ def run(ctx):
             "and, for kitty, through query_terminal's return value; conventions of the terminal kinds (model/TermIdent.v views): "
             "Konsole >= 22.04 puts the cursor at the beginning of the line below an inline image sent without doNotMoveCursor=1; "
             "on WezTerm an image alone does not replace cell contents (mix=False demands erased cells); other identities: lib/Term.v",
+            "kitty quirks (model/KittyQuirk.v, specification): a cell background equal to the terminal's default background colour is "
+            "not painted (stated by the library's own comment, block.py:84); a transmission whose decoded payload is not s*v*f/8 "
+            "bytes for its own f in {24, 32} is rejected and places nothing; the active terminal / its default background enter "
+            "through the test-suite stubs (_is_on_kitty, get_fg_bg_colors)",
         ],
-        "trusted": ["harness/lexer.py (bytes -> tokens, fail-closed)"],
+        "trusted": ["harness/lexer.py (bytes -> tokens, fail-closed)",
+                    "base64 / zlib decoding of kitty payloads in harness/props/c01_quirk.py (decoded byte counts enter Coq)"],
     }
